@@ -151,8 +151,11 @@ def ctor_rules(rep, prog):
         rep.check("GUARD.ctor", not late and len(stores) >= 2, fwhere(f4, hit.node), "size mismatch raises ValueError before anything is stored",
                   "attributes are stored without passing the size check")
     st = {s.attr: s.value for s in S4.select("attrstore", qname=f4.qname)}
-    ok = strip_wrappers(st.get("mean", ())) == ("method", ("param", "mean"), "copy", (), ()) and \
-        strip_wrappers(st.get("covariance", ())) == ("method", ("param", "covariance"), "copy", (), ())
+    def copy_of(t, p_):
+        t = strip_wrappers(t)
+        return t == ("method", ("param", p_), "copy", (), ()) or (isinstance(t, tuple) and len(t) == 4 and t[0] == "ext" and
+                                                                 t[1] in ("copy.deepcopy", "copy.copy", "numpy.copy", "numpy.array") and t[2] == (("param", p_),) and not t[3])
+    ok = copy_of(st.get("mean", ()), "mean") and copy_of(st.get("covariance", ()), "covariance")
     ok = ok or (MNF().nf(st.get("mean", ("const", 0))) == rA(("param", "mean")) and MNF().nf(st.get("covariance", ("const", 0))) == rA(("param", "covariance")))
     rep.check("CTOR.roles", ok, fwhere(f4), "self.mean <- mean, self.covariance <- covariance", "self.mean / self.covariance are not (copies of) the given mean / covariance: self.mean = %s, self.covariance = %s" % (
                   fmt(st.get("mean", ("const", None)))[:70], fmt(st.get("covariance", ("const", None)))[:70]))
